@@ -181,6 +181,9 @@ type RollSampleGroupEntry struct {
 func DecodeRollSampleGroupEntry(name string, length uint32, sr bits.SliceReader) (SampleGroupEntry, error) {
 	entry := &RollSampleGroupEntry{}
 	entry.RollDistance = sr.ReadInt16()
+	if length != uint32(entry.Size()) {
+		return nil, fmt.Errorf("roll: given length %d different from calculated size %d", length, entry.Size())
+	}
 	return entry, sr.AccError()
 }
 
@@ -220,6 +223,9 @@ func DecodeRapSampleGroupEntry(name string, length uint32, sr bits.SliceReader) 
 	byt := sr.ReadUint8()
 	entry.NumLeadingSamplesKnown = byt >> 7
 	entry.NumLeadingSamples = byt & 0x7F
+	if length != uint32(entry.Size()) {
+		return nil, fmt.Errorf("rap: given length %d different from calculated size %d", length, entry.Size())
+	}
 	return entry, sr.AccError()
 }
 
